@@ -4,7 +4,7 @@ from tools import vlib, corr, gen, catalogue
 
 RULE = ('cost layer: the reader-primitive call counts of Model/CostScan.v (extracted) vs sys.setprofile counts of Reader.peek/prefix/forward/get_mark while yaml.scan runs, on the corpus files that '
         'scan and on the load catalogue at four sizes (prefix, forward, get_mark within 5%, peek within 30% - the model evaluates some self.peek() tests eagerly where Python short-circuits: affine agreement). Direct on the implementation (Python-level and builtin-level calls both counted; plus 11 families that go through customised loader/dumper classes - wildcard implicit resolver, multi-representer, multi-constructor, path resolver, repeated calls on one class): every family of the catalogue (30 load families, '
-        '16 dump families x 6 option sets) at sizes n, 2n, 4n (quick n=60, thorough n=60 and 250): interpreter-level function calls counted with sys.setprofile for safe_load_all / safe_dump; '
+        '16 dump families x 6 option sets) at sizes n, 2n, 4n (quick n=150, thorough n=150 and 400): interpreter-level function calls counted with sys.setprofile for safe_load_all / safe_dump; '
         'calls per character of the document read/written may grow by at most 15% (+400 calls) at both doublings. exhaustive over the catalogue. non-trivial = every family; distinct by (side, family, n, options)')
 
 def run(ctx):
@@ -30,7 +30,7 @@ def run(ctx):
             ok = all(abs(mc[j] - pc[j]) * 100 <= tol * max(pc[j], 200) for j, tol in ((1, 5), (2, 5), (3, 5), (0, 30)))
             if not ok: ctx.disagreement('cost', dict(text=t[:300]), dict(model_peek_prefix_forward_getmark=mc, impl=pc))
     cases = []
-    sizes = [60] if ctx.quick() else [60, 250]
+    sizes = [150] if ctx.quick() else [150, 400]          # large enough for a quadratic term with a small coefficient to exceed the tolerance
     for n in sizes:
         for f in catalogue.LOAD: cases.append(['load', f, n, None])
         for f in catalogue.DUMP:
